@@ -31,7 +31,7 @@ func init() {
 }
 
 func runC11(c *mon.Ctx) {
-	c.Each("maps", c.N(3000, 100_000), func(i int64, r *mon.Rand) {
+	c.Each("maps", c.N(3000, 1_500_000), func(i int64, r *mon.Rand) {
 		res := int64(r.Range(1, 32767))
 		if r.P(2, 3) {
 			res = int64(r.Pick(1, 24, 48, 96, 120, 192, 240, 384, 480, 960, 1920, 15360, 32767))
@@ -194,7 +194,7 @@ func runC11(c *mon.Ctx) {
 	})
 
 	// duration/tick inverse
-	c.Each("inverse", c.N(200_000, 20_000_000)/1000, func(i int64, r *mon.Rand) {
+	c.Each("inverse", c.N(200_000, 200_000_000)/1000, func(i int64, r *mon.Rand) {
 		for k := 0; k < 1000; k++ {
 			res := uint16(r.Range(1, 32767))
 			if r.P(1, 2) {
